@@ -200,8 +200,8 @@ func Ascii(s string) *Node   { return &Node{Kind: A, Str: s} }
 func AsciiVar(name string, min, max int) *Node {
 	return &Node{Kind: A, AVar: &AVar{name, min, max}}
 }
-func Var(name string) *Node  { return &Node{Kind: VAR, Name: name} }
-func Ell(name string) *Node  { return &Node{Kind: ELLIPSIS, Name: name} }
+func Var(name string) *Node { return &Node{Kind: VAR, Name: name} }
+func Ell(name string) *Node { return &Node{Kind: ELLIPSIS, Name: name} }
 func Ints(k Kind, v ...int64) *Node {
 	n := &Node{Kind: k, Elems: []Elem{}}
 	for _, x := range v {
